@@ -1161,6 +1161,18 @@ func (t *State) procTodoBlkForWalk(todoBlocks []*pb.InternalBlock) (err error) {
 		showBlkId = hex.EncodeToString(todoBlk.Blockid)
 
 		t.log.Info("start do block for walk", "blockid", showBlkId)
+		// 检查块内的utxo双花情况: 同一个batch内前面交易花掉的utxo在写盘之前仍然能从表里查到
+		utxoKeysInBlock := map[string]bool{}
+		for _, blkTx := range todoBlk.Transactions {
+			for _, txInput := range blkTx.TxInputs {
+				utxoKey := utxo.GenUtxoKey(txInput.FromAddr, txInput.RefTxid, txInput.RefOffset)
+				if utxoKeysInBlock[utxoKey] {
+					t.log.Warn("found duplicated utxo in same block", "utxoKey", utxoKey, "txid", utils.F(blkTx.Txid))
+					return ErrUTXODuplicated
+				}
+				utxoKeysInBlock[utxoKey] = true
+			}
+		}
 		// 将batch赋值到合约机的上下文
 		batch := t.ldb.NewBatch()
 
